@@ -79,6 +79,22 @@ from ..harness import HTable, crash_fingerprint
 from ..par import Acc, run_shards
 from ..runner import REPO, Result, Violation, jsonable
 
+
+def _application_sigint(signum, frame):
+    raise KeyboardInterrupt
+
+
+def _embedding_environment():
+    """The statements run in threads of an application that has its own SIGINT handler (graceful shutdown), as servers
+    embedding the library do: process-wide state (signal handlers, which only the main thread may set) that execute()
+    touched would then fail or differ in worker threads but not serially in the main thread."""
+    import signal
+    if threading.current_thread() is threading.main_thread() and signal.getsignal(signal.SIGINT) is not _application_sigint:
+        signal.signal(signal.SIGINT, _application_sigint)
+
+
+_embedding_environment()
+
 LEVEL = 'model_checking'
 
 BALANCE_FP = 'balance-cache-shared'
@@ -722,6 +738,15 @@ def run_item(item, acc, on_violation=None):
 # ---------------------------------------------------------------------------------------------
 # enumeration of work items (deterministic), sub-sharding of the large ones
 
+class ThreadOnlyFailure(Exception):
+    """A statement that succeeds when the main thread executes it fails when a worker thread executes it, with no other
+    thread running: the result depends on which thread executes it (1 thread, 0 preemptions)."""
+
+    def __init__(self, item, sid, out):
+        super().__init__(sid)
+        self.item, self.sid, self.out = item, sid, out
+
+
 def count_points(mode, sid, seed):
     """Points of one statement run alone under the scheduler (1 thread), per parameter slot: max."""
     best = 0
@@ -730,7 +755,12 @@ def count_points(mode, sid, seed):
         body = it.world()[slot]
         out = sched.run_schedule([body], trace_files=it.trace_files)
         if isinstance(out.results[0], sched.Exc):
-            raise sched.HarnessError(f'menu statement {sid} fails when run alone: {out.results[0]!r}')
+            # alone in a worker thread it fails: does it also fail alone in the main thread?
+            try:
+                it.world()[slot]()
+            except Exception:
+                raise sched.HarnessError(f'menu statement {sid} fails when run alone: {out.results[0]!r}')
+            raise ThreadOnlyFailure(it, sid, out)
         best = max(best, out.npoints)
     return best
 
@@ -912,6 +942,14 @@ def free_running_smoke(ctx, rounds=3):
 def run(ctx):
     try:
         return _run(ctx)
+    except ThreadOnlyFailure as e:
+        r = e.out.results[0]
+        fp = f'thread-only-failure:{type(r.exc).__name__ if hasattr(r, "exc") else "error"}'
+        what = (f'statement {e.sid} ({MENU[e.sid][0]!r}) executed alone in a worker thread gives {r!r} although the main thread executes it without error '
+                '(an application-level SIGINT handler is installed, as in servers embedding the library)')
+        cov = {'states': 1, 'transitions': e.out.npoints, 'traces_validated_against_impl': 1, 'evaluations': 1, 'distinct_nontrivial': 2, 'exhaustive': False,
+               'rule': 'the exploration stopped at the planning stage: a menu statement fails in every worker thread', 'samples': []}
+        return Result(cov, [Violation(fp, what, e.item.case(e.out, fp))], assumptions=[])
     finally:
         restore_parse_points()
 
@@ -921,7 +959,14 @@ def _run(ctx):
     import time
     t0 = time.time()
     facts = sched.selftest()
-    canary_result = canary(ctx)
+    # the canary statements run on the real library too: when the library itself is broken for every threaded execution
+    # the canary cannot tell its race apart from that failure.  Its verdict is then postponed: the exploration below
+    # reports the library's violations; only if it reports none is the canary's failure a harness error.
+    canary_error = None
+    try:
+        canary_result = canary(ctx)
+    except sched.HarnessError as e:
+        canary_error, canary_result = e, {'inconclusive': str(e)}
     t1 = time.time()
     env(ctx.seed)
     specs, pts, lpts = plan(ctx)
@@ -943,6 +988,9 @@ def _run(ctx):
         n = total.n.get('violating|' + fp, 0)
         for msg, cj in lst[:1]:
             violations.append(Violation(fp, f'{msg}  [{n} violating schedule(s) in this run; the reported one is the simplest and reproduced twice from fresh state]', json.loads(cj)))
+
+    if canary_error is not None and not violations:
+        raise canary_error
 
     per_config = {}
     outcome_sets = {k: v for k, v in total.sets.items() if isinstance(k, tuple) and k[0] == 'outcomes'}
